@@ -154,6 +154,20 @@ def handle(case):
                         ok, sig = False, 'cycle-order-changed'
                         msg = 'group %r: cycle %s declared in order %s, ordered %s after setup' % (
                             path, sorted(comp), before, after)
+    # premise of the hierarchical theorem on the REAL orders: in every group each component-level
+    # connection between two different subsystems has its source's subsystem first
+    good = True
+    finals = {g['g']: reports[k][3] for k, g in enumerate(groups)}
+    for g in groups:
+        owner = {}
+        for ch in g['ch']:
+            for lf in leaves(ch):
+                owner[lf] = nid(ch)
+        order = finals[g['g']]
+        for s_, t_ in comp_edges(case):
+            if s_ in owner and t_ in owner and owner[s_] != owner[t_]:
+                if order.index(owner[s_]) > order.index(owner[t_]):
+                    good = False
     p.run_model()
     trace = list(TRACE)
     outs = [int(v) if float(v).is_integer() else None
@@ -179,7 +193,7 @@ def handle(case):
         if ok and any(r != 0.0 for r in resid):
             ok, sig = False, 'nonzero-residual'
             msg = 'residuals after one run_model: %s (trace %s)' % (resid, trace)
-    return {'res': [reports, trace, outs, resid_i], 'sccs': sccs_out, 'ok': ok, 'msg': msg, 'sig': sig,
+    return {'res': [reports, trace, outs, resid_i, good], 'sccs': sccs_out, 'ok': ok, 'msg': msg, 'sig': sig,
             'kind': '%s:%s' % (case['kind'], case['cls'])}
 
 
